@@ -152,3 +152,35 @@ Proof.
   pose proof (io_next im IO pc c0 c1 a C0 C1 A) as A1.
   rewrite (IH (Pos.succ pc) (a + isize c0) CA A1 n c Hn). f_equal. lia.
 Qed.
+
+(* every address in the image is the base plus the size of a prefix of the code *)
+Lemma build_addr_inv : forall cs i a im j x,
+  PM.find j (addr_of (build cs i a im)) = Some x ->
+  PM.find j (addr_of im) = Some x \/ exists n c, j = padd i n /\ nth_error cs n = Some c /\ x = a + size_of (firstn n cs).
+Proof.
+  induction cs as [|c0 r IH]; intros i a im j x H; cbn [build] in H; [now left|].
+  apply IH in H as [H|(n & c & -> & Hn & ->)].
+  - cbn [addr_of] in H. destruct (Pos.eq_dec j i) as [->|NE].
+    + rewrite PM.gss in H. inversion H; subst. right. exists O, c0. cbn. repeat split; auto. lia.
+    + rewrite PM.gso in H by exact NE. now left.
+  - right. exists (S n), c. cbn [padd nth_error firstn size_of]. repeat split; auto. lia.
+Qed.
+Lemma size_firstn_le : forall cs n, size_of (firstn n cs) <= size_of cs.
+Proof.
+  induction cs as [|c r IH]; intros n; destruct n; cbn [firstn size_of]; try lia.
+  - pose proof (isize_nonneg c). pose proof (size_of_nonneg r). lia.
+  - specialize (IH n). lia.
+Qed.
+Definition code_small (cs : list xcode) : bool := size_of cs <? 4611686018427387904 - CODE_BASE.
+Lemma mk_image_small cs : code_small cs = true ->
+  forall pc a, PM.find pc (addr_of (mk_image cs)) = Some a -> a < 4611686018427387904.
+Proof.
+  unfold code_small. rewrite Z.ltb_lt. intros H pc a A. unfold mk_image in A.
+  apply build_addr_inv in A as [A|(n & c & _ & _ & ->)]; [cbn in A; rewrite PM.gempty in A; discriminate|].
+  pose proof (size_firstn_le cs n). lia.
+Qed.
+Lemma mk_image_code_in cs pc c : PM.find pc (code (mk_image cs)) = Some c -> In c cs.
+Proof.
+  intros H. apply build_code_inv in H as [H|(n & _ & Hn)]; [cbn in H; rewrite PM.gempty in H; discriminate|].
+  eapply nth_error_In; eauto.
+Qed.
